@@ -142,7 +142,7 @@ def find_sub(blocks: list, sub: list) -> int:
     return -1
 
 
-PATCH_NAMES = ["p.ips", "hack [T+Eng1.1].ips", "patch[1].ips", "fix (v2).ips", "a*b.ips", "what?.ips", "sub dir/p.ips", "caf\u00e9.ips", "100%.ips", "p.ips.bak", "~p.ips", "-p.ips", "{p}.ips", "assets/../patches/fix.ips", "assets/../fix.ips", "SD3FIX.IPS", "Title.Ips", "fix.bin", "patchfile", "v1.1/fix.ips", "intro.ips.orig"]
+PATCH_NAMES = ["p.ips", "hack [T+Eng1.1].ips", "patch[1].ips", "fix (v2).ips", "a*b.ips", "what?.ips", "sub dir/p.ips", "caf\u00e9.ips", "100%.ips", "p.ips.bak", "~p.ips", "-p.ips", "{p}.ips", "assets/../patches/fix.ips", "assets/../fix.ips", "patches\\intro.ips", "SD3FIX.IPS", "Title.Ips", "fix.bin", "patchfile", "v1.1/fix.ips", "intro.ips.orig"]
 
 
 def _rename_patch(prog: list, name: str) -> list:
@@ -175,6 +175,9 @@ def check_wellformed(res: Res, rng: random.Random, recs: list[dict], delta: int,
             import re as _re
             decoy_name = _re.sub(r"\[(.)[^\]]*\]", r"\1", name)
             p1["files"][decoy_name] = ips.build([{"off": 0x123, "data": b"\xDE\xC0\xDE"}])
+        if "\\" in name:
+            # a file whose name holds a backslash (unpacked from an archive made elsewhere): it is that file, not patches/intro.ips
+            p1["files"][name.replace("\\", "/")] = ips.build([{"off": 0x123, "data": b"\xDE\xC0\xDE"}])
         if name.startswith("assets/../"):
             # `assets` is a link to a directory elsewhere: the name means what the file system says it means (the parent of the link's target)
             real = "shared/" + name[len("assets/../"):]
